@@ -557,8 +557,14 @@ def write_evidence(prop: str, tier: str, base_seed: int, agg: dict, info: dict, 
         "violations": len(info.get("replays", [])),
         "exit_code": exit_code,
     }
-    os.makedirs(os.path.join(VERIF_DIR, "evidence"), exist_ok=True)
-    path = os.path.join(VERIF_DIR, "evidence", f"{prop}.json")
+    # evidence/<ID>.json describes runs against /repo itself; runs pointed at a scratch copy (sensitivity / seeded
+    # self-tests via VERIF_REPO) must not overwrite it
+    if os.path.realpath(REPO_DIR) == "/repo":
+        ev_dir = os.path.join(VERIF_DIR, "evidence")
+    else:
+        ev_dir = os.path.join("/tmp", "verif_scratch_evidence")
+    os.makedirs(ev_dir, exist_ok=True)
+    path = os.path.join(ev_dir, f"{prop}.json")
     tmp = path + ".tmp"
     with open(tmp, "w") as f:
         json.dump(ev, f, indent=1, default=_jdefault)
